@@ -16,7 +16,7 @@ pub fn run(ws: &Ws, seed: u64) -> Result<i32, String> {
     let exec = Executor::new(&ws.bin("simhost"), "selftest")?;
     let mut bad = 0;
     // ---- 1. catalogue
-    for t in catalogue::TEMPLATES {
+    for t in &catalogue::drawable() {
         for k in 0..6u64 {
             let mut rng = Rng::derive(seed, t, k);
             let p = catalogue::instantiate(t, &mut rng);
